@@ -168,6 +168,9 @@ func genProducer(c *cf.Case, r *cf.Rng, prop string) {
 		if r.Intn(6) == 0 {
 			cfg.Sync = true
 		}
+		if r.Intn(5) == 0 {
+			cfg.Idempotent = true
+		}
 	case "C05":
 		cfg.Idempotent = true
 	case "C16":
